@@ -19,6 +19,11 @@ URLS = [
     ('wss://secure.example.org:8443', 'secure.example.org', 8443, '/'),
     ('ws://10.1.2.3:9001/a/b/', '10.1.2.3', 9001, '/a/b/'),
     ('ws://[::1]:9000/v6', '::1', 9000, '/v6'),
+    ('ws://example.com:80/explicit-default', 'example.com', 80, '/explicit-default'),
+    ('WSS://Example.COM/Mixed/Case?Q=1', 'example.com', 443, '/Mixed/Case?Q=1'),
+    ('ws://example.com/with?a=1#fragment', 'example.com', 80, '/with?a=1'),
+    ('ws://example.com:/empty-port', 'example.com', 80, '/empty-port'),
+    ('ws://example.com/%7Euser//x?q=%20', 'example.com', 80, '/%7Euser//x?q=%20'),
     ('wss://[2001:db8::7]/v6?x=1', '2001:db8::7', 443, '/v6?x=1'),
 ]
 
